@@ -334,6 +334,21 @@ func (ex *Exec) strEq(a, b Str) *Term {
 			return f.False
 		}
 		if e.Enc.Kind == "hex" {
+			if cs, ok := concreteString(o); ok && len(cs) == 42 && cs[:2] == "0x" {
+				digitsOnly := true
+				for _, c := range cs[2:] {
+					if c < '0' || c > '9' {
+						digitsOnly = false
+					}
+				}
+				if digitsOnly { // no letters: the checksum casing plays no role
+					var ds []*Term
+					for i := 0; i < 20; i++ {
+						ds = append(ds, f.I64(int64((cs[2+2*i]-'0')*16+(cs[3+2*i]-'0'))))
+					}
+					return ex.bytesEq(e.Enc.Data, ds)
+				}
+			}
 			return ex.bytesEq(ex.strBytes(e), o.B)
 		}
 		if cs, ok := concreteString(o); ok {
